@@ -236,7 +236,15 @@ Shared(ops) == SelectSeq(ops, LAMBDA op : op.f = 0 /\ ~IsRngOp(op))
 RoleSync == (res.P = "ok" /\ res.V = "ok" /\ wire = sent /\ ~degen) => Shared(tr.P) = Shared(tr.V)
 
 \* C01 (as a run property): same statement, satisfying assignment, unaltered proof => accepted
-SameStatement == /\ cs.P.cons = cs.V.cons
+\* same context: as far as both roles got, they performed the same transcript operations (label, application data before and
+\* during construction in both phases, commitments, separators, proof elements) - one list is a prefix of the other -
+\* and they were given the same Pedersen bases
+SameContext == LET a == Shared(tr.P)  b == Shared(tr.V)
+                   k == IF Len(a) < Len(b) THEN Len(a) ELSE Len(b)
+               IN /\ SubSeq(a, 1, k) = SubSeq(b, 1, k)
+                  /\ env.P.B = env.V.B /\ env.P.Bb = env.V.Bb
+SameStatement == /\ SameContext
+                 /\ cs.P.cons = cs.V.cons
                  /\ PLen(cs.P) = VLen(cs.V)
                  /\ cs.V.V = [j \in 1 .. Len(cs.P.v) |-> Commit(env.P, cs.P.v[j], cs.P.vb[j])]
 Completeness ==
